@@ -3,6 +3,7 @@ From Coq Require Import List Arith Lia Bool PeanoNat String.
 Import ListNotations.
 Notation length := List.length.
 From SP Require Import Skel Gen Expected NetA Inv Pres Dead Top Ghost GhostPres NetTop.
+From SP Require Port.
 
 (* T1: tasks are appended at the tail of startedTasks, only the head's Done is awaited, the head is popped, its out-IPs are sent *)
 Theorem C08_code_conforms :
@@ -46,7 +47,15 @@ Proof.
   exact (final_hist c len gc WF s g e (reachable_inv c len gc WF sched s g Hok Hrun) HF He).
 Qed.
 
+(* items that reach a port from the same upstream keep their relative order through fan-in: in every reachable state of a
+   port fed by any number of upstreams, the items received from upstream r are, in order, the first ones r sends *)
+Theorem C08_fanin_order : forall (c : Port.cfg), 1 <= Port.cap c -> 1 <= Port.ns c ->
+  forall l s, Port.run c (Port.init c) l = Some s ->
+  forall r, r < Port.ns c -> Port.from r (Port.hist s) = firstn (Port.rcv s r) (Port.plan c r).
+Proof. intros c C N l s H. exact (proj1 (Port.merge_is_orderly c C N l s H)). Qed.
+
 Print Assumptions C08_code_conforms.
+Print Assumptions C08_fanin_order.
 Print Assumptions C08_process_order.
 Print Assumptions C08_creation_is_arrival_order.
 Print Assumptions C08_final_order.
